@@ -19,7 +19,9 @@ KwTok(k) == CASE k = "type" -> "TYPE" [] k = "int" -> "INTEGER" [] k = "bool" ->
 HoleA == [k |-> "hole"]
 R(toks, ast) == [toks |-> toks, ast |-> ast]
 RECURSIVE UP(_,_,_), Body(_,_), LetParts(_,_)
-UP(t, req, off) == IF t.p \/ Native(t) > req
+\* t.np ("no parentheses"): the parentheses the grammar REQUIRES around this node are left out -- the result is either not a
+\* sentence or a sentence with another tree; used to probe over-acceptance beyond the token bound of the exhaustive check
+UP(t, req, off) == IF (t.p \/ Native(t) > req) /\ ~t.np
                    THEN LET r == Body(t, off + 1) IN R(<<"LEFT_PAREN">> \o r.toks \o <<"RIGHT_PAREN">>, r.ast)
                    ELSE Body(t, off)
 \* the definitions of the group that starts at t and its body; an unparenthesised let in body position joins the group
